@@ -78,6 +78,9 @@ def main(argv=None) -> int:
         # scratch buffers refilled in part and read whole (rules/scratch_rule.py)
         from .rules import scratch_rule
         rep.extra["scratch_functions"] = scratch_rule.check(project, rep)
+        # guard flags set around a call and reset outside a `finally` (rules/flag_rule.py)
+        from .rules import flag_rule
+        rep.extra["flag_findings"] = flag_rule.check(project, rep)
         # module-level memo caches written by that code (rules/memo_rule.py): keyed by everything they depend on?
         if pid != "C19":   # C19 decides them itself, next to the rest of module state (PU-CACHE / PU-STATE)
             from .rules import memo_rule
